@@ -304,3 +304,19 @@ pub proof fn lemma_mapped_entries<K, V>(e: Seq<(K, V)>, m: IMap<K, V>, ms: Seq<(
         assert(ms[i].0 == e[i].0);
     }
 }
+
+/// `for (k, v) in &map`
+impl<'a, K, V> IntoIterator for &'a BTreeMap<K, V> {
+    type Item = (&'a K, &'a V);
+
+    type IntoIter = std::vec::IntoIter<(&'a K, &'a V)>;
+
+    fn into_iter(self) -> (r: std::vec::IntoIter<(&'a K, &'a V)>)
+        ensures
+            deref_pairs(vstd::std_specs::iter::IteratorSpec::remaining(&r)) == vx_entries(self@),
+            entries_of(vx_entries(self@), self@),
+            ref_entries_of(vstd::std_specs::iter::IteratorSpec::remaining(&r), self@),
+    {
+        self.iter().into_iter()
+    }
+}
